@@ -16,7 +16,7 @@ fn tokens() -> Vec<String> {
     for v in ["", "-1", "1.5", "x", "0''", "'", "0x10", "+1", "01", " 1", "1 ", "0h", "0H"] { t.push(v.to_string()); }
     t
 }
-pub struct Space { depth: usize, toks: Vec<String>, seed: Vec<u8>, curve: Curve }
+pub struct Space { depth: usize, toks: Vec<String>, seed: Vec<u8>, curve: Curve, label: &'static str }
 fn text_of(hist: &[u16], toks: &[String]) -> String {
     // the root spelling is a literal prefix; components are joined by '/'
     let comps: Vec<&str> = hist[1..].iter().map(|i| toks[*i as usize - 100].as_str()).collect();
@@ -65,16 +65,17 @@ fn shape_of(text: &str, class: &Class<Vec<u32>>) -> String {
 }
 impl HistSpace for Space {
     type Sym = u16; // < 100: root variant, >= 100: token
-    fn name(&self) -> String { "bfs-path-tokens".into() }
+    fn name(&self) -> String { self.label.into() }
     fn bound(&self) -> String { format!("{} root spellings x every sequence of <= {} components over {} tokens (values at the 2^31, 2^32, 2^64 boundaries in both markings, malformed and exotic spellings)", ROOTS.len(), self.depth, self.toks.len()) }
     fn roots(&self) -> Vec<Vec<u16>> { (0..ROOTS.len() as u16).map(|r| vec![r]).collect() }
     fn symbols(&self) -> Vec<u16> { (0..self.toks.len() as u16).map(|t| t + 100).collect() }
     fn max_len(&self) -> usize { self.depth + 1 }
-    fn check(&self, ctx: &Ctx, hist: &[u16], index: u64) { check_text(ctx, "bfs-path-tokens", index, &text_of(hist, &self.toks), &self.seed, &self.curve) }
+    fn check(&self, ctx: &Ctx, hist: &[u16], index: u64) { check_text(ctx, self.label, index, &text_of(hist, &self.toks), &self.seed, &self.curve) }
 }
 pub fn run(ctx: &'static Ctx) {
     let seed = filler_bytes(ctx.seed, 0xC14, 64);
-    bfs(ctx, Space { depth: if ctx.quick() { 2 } else { 3 }, toks: tokens(), seed: seed.clone(), curve: Curve::new() });
+    bfs(ctx, Space { depth: if ctx.quick() { 2 } else { 3 }, toks: tokens(), seed: seed.clone(), curve: Curve::new(), label: "bfs-path-tokens" });
+    if ctx.thorough() { let few: Vec<String> = ["0", "0'", "2147483647'", "2147483648", "", "x", "+1", "01"].iter().map(|s| s.to_string()).collect(); bfs(ctx, Space { depth: 6, toks: few, seed: seed.clone(), curve: Curve::new(), label: "bfs-path-tokens-deep" }); }
     // default account path
     let idx: Vec<usize> = vec![0, 1, 2, 7, 1000, 65536, 0x7fff_fffe, 0x7fff_ffff];
     let curve = Curve::new();
